@@ -165,6 +165,15 @@ theorem C06_go_EnumNames (S S' : Schemas) (h : chain goChain S = .ok S') : EnumN
     (fun _ => true) keepsGoEnum goChain (fun _ _ _ _ _ _ => trivial)
     (fun S S' _ hr => post_PrefixEnumValues S S' hr) keepsGoEnum_sound (by decide) S S' trivial h
 
+/-- non-vacuity (Go, Java, PHP): a well-formed input with an anonymous enum whose members need
+    prefixing / sanitising; every chain succeeds on it -/
+example : let S := Witness.schemas [Witness.obj "A" (.struct [Witness.fld "e"
+      (.enum [{ name := "-1", value := .int "i64" 1, kind := "int64" }, { name := "+x", value := .int "i64" 2, kind := "int64" }] {}) true] [] none {})]
+    wfIR S = true ∧ EnumsNamed S = false ∧ EnumNames_php S = false ∧
+    (∃ S', chain goChain S = .ok S') ∧ (∃ S', chain javaChain S = .ok S') ∧
+    (match chain phpChain.dropLast S with | .ok _ => true | _ => false) = true := by
+  refine ⟨by decide, by decide, by decide, ⟨_, rfl⟩, ⟨_, rfl⟩, by decide⟩
+
 /-! ## Java -/
 
 /-- Java: every enum is a named object — for EVERY well-formed input (same argument as for Go; the
